@@ -639,6 +639,26 @@ func RampLogs(n, distinct, base int, col string) plog.Logs {
 	ld := plog.NewLogs()
 	rl := ld.ResourceLogs().AppendEmpty()
 	rl.Resource().Attributes().PutStr("svc", "ramp")
+	if col == "all" {
+		// every dictionary column of the main record (and of the attribute record) grows in the same batch; one scope
+		// per record so that the scope columns grow too
+		for i := 0; i < n; i++ {
+			k := base + i%max(1, distinct)
+			v := fmt.Sprintf("v%07d", k)
+			sl := rl.ScopeLogs().AppendEmpty()
+			sl.Scope().SetName("n" + v)
+			sl.Scope().SetVersion("ver" + v)
+			sl.SetSchemaUrl("u" + v)
+			l := sl.LogRecords().AppendEmpty()
+			l.SetTimestamp(pcommon.Timestamp(1 + i))
+			l.Body().SetStr("b" + v)
+			l.SetSeverityText("s" + v)
+			l.SetEventName("e" + v)
+			l.Attributes().PutStr("k", "a"+v)
+			l.Attributes().PutInt("i", int64(k))
+		}
+		return ld
+	}
 	sl := rl.ScopeLogs().AppendEmpty()
 	for i := 0; i < n; i++ {
 		l := sl.LogRecords().AppendEmpty()
@@ -664,6 +684,26 @@ func RampTraces(n, distinct, base int, col string) ptrace.Traces {
 	td := ptrace.NewTraces()
 	rs := td.ResourceSpans().AppendEmpty()
 	rs.Resource().Attributes().PutStr("svc", "ramp")
+	if col == "all" {
+		for i := 0; i < n; i++ {
+			k := base + i%max(1, distinct)
+			v := fmt.Sprintf("v%07d", k)
+			ss := rs.ScopeSpans().AppendEmpty()
+			ss.Scope().SetName("n" + v)
+			ss.Scope().SetVersion("ver" + v)
+			ss.SetSchemaUrl("u" + v)
+			s := ss.Spans().AppendEmpty()
+			s.SetStartTimestamp(pcommon.Timestamp(1 + i))
+			s.SetEndTimestamp(pcommon.Timestamp(1 + i + 1000*k))
+			s.SetSpanID(pcommon.SpanID([8]byte{byte(i), byte(i >> 8), byte(i >> 16), 1}))
+			s.SetName("s" + v)
+			s.TraceState().FromRaw("k=" + v)
+			s.Status().SetMessage("m" + v)
+			s.Attributes().PutStr("k", "a"+v)
+			s.Events().AppendEmpty().SetName("e" + v)
+		}
+		return td
+	}
 	ss := rs.ScopeSpans().AppendEmpty()
 	for i := 0; i < n; i++ {
 		s := ss.Spans().AppendEmpty()
@@ -690,6 +730,24 @@ func RampMetrics(n, distinct, base int, col string) pmetric.Metrics {
 	md := pmetric.NewMetrics()
 	rm := md.ResourceMetrics().AppendEmpty()
 	rm.Resource().Attributes().PutStr("svc", "ramp")
+	if col == "all" {
+		for i := 0; i < n; i++ {
+			k := base + i%max(1, distinct)
+			v := fmt.Sprintf("v%07d", k)
+			sm := rm.ScopeMetrics().AppendEmpty()
+			sm.Scope().SetName("n" + v)
+			sm.Scope().SetVersion("ver" + v)
+			sm.SetSchemaUrl("u" + v)
+			m := sm.Metrics().AppendEmpty()
+			m.SetName("m" + v)
+			m.SetDescription("d" + v)
+			m.SetUnit("u" + v)
+			dp := m.SetEmptyGauge().DataPoints().AppendEmpty()
+			dp.SetIntValue(int64(i))
+			dp.Attributes().PutStr("k", "a"+v)
+		}
+		return md
+	}
 	sm := rm.ScopeMetrics().AppendEmpty()
 	for i := 0; i < n; i++ {
 		v := fmt.Sprintf("v%07d", base+i%max(1, distinct))
